@@ -6,8 +6,8 @@ import ast
 from ..core import rule
 from ..errors import AnalysisError
 from ..px import OK, PX, RAISE, Closure, Outcomes
-from ..pxv import Obj, Sym
-from ..te import TypeRef
+from ..pxv import Bound, Obj, Partial, Sym
+from ..te import FuncRef, TypeRef
 from .util import same_class, self_obj, text
 
 TH = "bellows.thread"
@@ -101,15 +101,19 @@ def r20_1(ctx):
                         else:
                             if direct:
                                 bad = "plain method from another loop is executed on the caller's thread"
-                            elif len(cst) != 1 or rct or cst[0].callee != "loop1.call_soon_threadsafe" or not isinstance(cst[0].args[0], Closure):
+                            elif len(cst) != 1 or rct or cst[0].callee != "loop1.call_soon_threadsafe" or not cst[0].args \
+                                    or not isinstance(cst[0].args[0], (Closure, FuncRef, Bound, Partial)):
                                 bad = f"plain method from another loop: call_soon_threadsafe {[(e.callee, e.args) for e in cst]!r} (must be queued on the owner's loop)"
                             elif p.value is not None:
                                 bad = f"queued call returns {p.value!r} to the caller"
                             else:
                                 inner = cst[0].args[0]
 
+                                queued_args = list(cst[0].args[1:])
+
                                 def entry2():
-                                    return px.call_function(inner, None, [], {}, None)
+                                    # what the owner's loop will do with the queued callback: call it with the queued arguments
+                                    return px.do_call(inner, "queued_callback", list(queued_args), {}, None, None, False)
 
                                 for q in px._run(entry2):
                                     ran = [e for e in q.events if e.kind == "call" and e.what == "func"]
@@ -185,19 +189,69 @@ def r20_7(ctx):
     repo = ctx.repo
     f = repo.func(f"{TH}:EventLoopThread.force_stop")
     ctx.fn(f)
-    gathers = [n for n in ast.walk(f.node) if isinstance(n, ast.Call) and text(n.func).endswith("gather")]
-    ctx.anchor(gathers, "force_stop waits for the tasks with asyncio.gather")
-    for g in gathers:
-        kw = {k.arg: k.value for k in g.keywords}
-        ok = "return_exceptions" in kw and isinstance(kw["return_exceptions"], ast.Constant) and kw["return_exceptions"].value is True
-        ctx.require(ok, "force_stop:gather", "the gather that gates loop.stop() is not created with return_exceptions=True: the loop stops when the first task "
-                    "ends cancelled, not when all have finished", func=f, node=g)
-    px = PX(repo, inline=same_class())
+    tasks = [Obj(TypeRef("asyncio.Task"), {}, tag=f"task{i}") for i in (1, 2)]
+    px = PX(repo, inline=same_class(), models=[("asyncio.all_tasks", lambda px_, t, a, k, fr: set(tasks))])
+    px.inline.root = f
+    callables = (Closure, FuncRef, Bound, Partial)
     for has_loop in (False, True):
-        for p in px.explore(f, lambda: (self_obj(repo.cls(TH, "EventLoopThread"), {"loop": Obj(TypeRef("Loop"), {}, tag="tloop") if has_loop else None}), {})):
+        tloop = Obj(TypeRef("Loop"), {}, tag="tloop")
+
+        def entry():
+            me = self_obj(repo.cls(TH, "EventLoopThread"), {"loop": tloop if has_loop else None})
+            px.top_frame = None
+            px.call_function(f, me, [], {}, None)
+            queued = [e for e in px.events if e.kind == "call" and e.what.endswith("call_soon_threadsafe")]
+            # what the thread's loop does next: run the queued callback
+            for e in list(queued):
+                if e.args and isinstance(e.args[0], callables):
+                    px.emit("mark", "queued-callback-runs")
+                    px.do_call(e.args[0], "queued_callback", list(e.args[1:]), {}, None, None, False)
+            # ... and, when the gather completes, its done-callbacks
+            for e in [x for x in px.events if x.kind == "call" and x.what.endswith("add_done_callback")]:
+                if e.args and isinstance(e.args[0], callables):
+                    px.emit("mark", "gather-done")
+                    px.do_call(e.args[0], "done_callback", [Sym("gather_future")], {}, None, None, False)
+            return None
+
+        for p in px._run(entry):
+            ctx.paths += 1
             cs = [e for e in p.events if e.kind == "call"]
-            ok = (not has_loop and not cs) or (has_loop and [e.what for e in cs] == ["self.loop.call_soon_threadsafe"] and isinstance(cs[0].args[0], Closure))
-            ctx.require(ok and p.terminal == "return", f"force_stop:loop={has_loop}", f"force_stop with{'' if has_loop else 'out'} a loop: {[e.what for e in cs]}", func=f)
+            key = f"force_stop:loop={has_loop}"
+            if not has_loop:
+                ctx.require(p.terminal == "return" and not cs, key, f"force_stop without a loop: {p.terminal}, calls {[e.what for e in cs]}", func=f)
+                continue
+            marks = {e.what: i for i, e in enumerate(p.events) if e.kind == "mark"}
+            i_run, i_done = marks.get("queued-callback-runs", -1), marks.get("gather-done", -1)
+            before = [e for e in p.events[: i_run if i_run >= 0 else len(p.events)] if e.kind == "call"]
+            bad = None
+            if p.terminal != "return":
+                bad = f"raises {p.value!r}"
+            elif i_run < 0 or [e.callee for e in before] != ["tloop.call_soon_threadsafe"]:
+                bad = f"force_stop itself does {[e.what for e in before]}; the cancellation must be queued on the thread's own loop with call_soon_threadsafe"
+            else:
+                body = [e for e in p.events[i_run: i_done if i_done >= 0 else len(p.events)] if e.kind == "call"]
+                cancels = [e for e in body if (e.what.endswith("call_soon_threadsafe") and e.args and getattr(e.args[0], "tag", "").endswith(".cancel"))
+                           or (e.callee or "").endswith(".cancel")]
+                cancelled = {(getattr(e.args[0], "tag", "") if e.what.endswith("call_soon_threadsafe") else e.callee).split(".")[0] for e in cancels}
+                gathers = [e for e in body if e.what.endswith("gather")]
+                if cancelled != {"task1", "task2"}:
+                    bad = f"tasks cancelled: {sorted(cancelled)} (every task of the loop must be cancelled)"
+                elif len(gathers) != 1 or set(map(id, gathers[0].args)) != set(map(id, tasks)):
+                    bad = f"the tasks are not awaited together: gather calls {[e.args for e in gathers]!r}"
+                elif gathers[0].kwargs.get("return_exceptions") is not True:
+                    bad = ("the gather that gates loop.stop() is not created with return_exceptions=True: it completes when the first task ends cancelled, "
+                           "not when all have finished")
+                elif i_done < 0:
+                    bad = "nothing is attached to the gather's completion (add_done_callback)"
+                else:
+                    stops = [e for e in p.events[i_done:] if e.kind == "call" and ((e.what.endswith("call_soon_threadsafe") and e.args and getattr(e.args[0], "tag", "") == "tloop.stop")
+                                                                               or e.callee == "tloop.stop")]
+                    early = [e for e in p.events[:i_done] if e.kind == "call" and (e.callee == "tloop.stop" or (e.args and getattr(e.args[0], "tag", "") == "tloop.stop"))]
+                    if early:
+                        bad = "the loop is stopped before the tasks have finished"
+                    elif len(stops) != 1:
+                        bad = f"completion of the gather stops the loop {len(stops)} times"
+            ctx.require(not bad, key, f"force_stop with a loop: {bad}", func=f, trace=p.trace(20))
 
 
 @rule("R20.8", ["C20"], "T-FUN", floor=1)
